@@ -38,7 +38,7 @@ SHARED = {
     "GenMul": ["C06"],
     "GenW3j": ["C05"],
     "Footprint2": ["C09", "C12", "C13", "C06"],
-    "GenMethod": ["C01", "C02", "C03", "C04", "C07", "C09", "C10", "C17"],
+    "GenMethod": ["C01", "C02", "C03", "C04", "C07", "C08", "C09", "C10", "C17"],
 }
 
 
